@@ -12,6 +12,10 @@ DESCR = {
                          "generated/DriverGen.v; the refinement generated code -> model (proofs/DriverTie.v, for all arguments) is "
                          "compiled with the property's theorem file; one case per translated function"),
     "translate_core": ("G:tracker source translator", "see core_units.g_unit"),
+    "translate_seed": ("G:seeding source translator",
+                       "ast translation (harness/pytrans.py, fail-closed) of utils.set_random_seed (core_optimizer/utils.py) into generated/SeedGen.v "
+                       "over the two abstract global generators; numpy's draw expression pinned by text; proofs/SeedTie.v proves the generated "
+                       "function equal to Rng.set_random_seed"),
     "translate_shc": ("G:stochastic-acceptance source translator",
                       "ast translation (harness/pytrans.py, fail-closed) of StochasticHillClimbingOptimizer.evaluate / _transition / _consider / "
                       "_execute_transition and the two counting decorators of ParameterTracker into generated/ShcGen.v; the acceptance probability "
@@ -94,7 +98,7 @@ def g_unit(ctx, modname):
     return u
 
 
-ALL_TRANSLATORS = ["translate_core", "translate_driver", "translate_grid", "translate_search", "translate_memory", "translate_results", "translate_coreopt", "translate_init", "translate_smbo", "translate_finish", "translate_pop", "translate_conv", "translate_shc"]
+ALL_TRANSLATORS = ["translate_core", "translate_driver", "translate_grid", "translate_search", "translate_memory", "translate_results", "translate_coreopt", "translate_init", "translate_smbo", "translate_finish", "translate_pop", "translate_conv", "translate_shc", "translate_seed"]
 
 
 def refresh_all(ctx):
